@@ -158,9 +158,12 @@ Example C17_v4_mapped_same :
 Proof. vm_compute. reflexivity. Qed.
 Example C17_v6_example :
   let ip := ofN 16 0x20010db885a3000000008a2e03707334 in
-  exists id', secure_node_id (id_rand 5) ip = Some id' /\ id' <> id_rand 5
-              /\ node_id_secure id' ip = Some true /\ node_id_secure (id_rand 5) ip = Some false.
-Proof. eexists. vm_compute. repeat split; try reflexivity. discriminate. Qed.
+  let id := id_rand 5 in
+  match secure_node_id id ip with
+  | Some id' => (negb (bytes_eqb id' id), node_id_secure id' ip, node_id_secure id ip)
+  | None => (false, None, None)
+  end = (true, Some true, Some false).
+Proof. vm_compute. reflexivity. Qed.
 
 (* local ranges and their boundaries *)
 Example C17_local_examples :
@@ -189,10 +192,13 @@ Definition ex_cfg : node_cfg :=
      cfg_public_ip := Some (ip4 124 31 75 21);
      cfg_no_security := true |}.
 Example C17_self_id_example :
-  exists id, init_node_id ex_cfg (id_rand 9) = Some (id, true)
-             /\ node_id_secure id (ip4 124 31 75 21) = Some true
-             /\ id <> hash_tuple [[x75; x64; x70]; [x30; x2e; x30; x2e; x30; x2e; x30; x3a; x34; x32]; ip4 124 31 75 21].
-Proof. eexists. vm_compute. repeat split; try reflexivity. discriminate. Qed.
+  let h := hash_tuple [[x75; x64; x70]; [x30; x2e; x30; x2e; x30; x2e; x30; x3a; x34; x32]; ip4 124 31 75 21] in
+  match init_node_id ex_cfg (id_rand 9) with
+  | Some (id, det) => (det, node_id_secure id (ip4 124 31 75 21), negb (bytes_eqb id h),
+                       node_id_secure h (ip4 124 31 75 21))
+  | None => (false, None, false, None)
+  end = (true, Some true, true, Some false).
+Proof. vm_compute. reflexivity. Qed.
 
 (* ================= pins: the masks srcfacts read from security.go ================= *)
 Example C17_pin_masks :
